@@ -1671,3 +1671,211 @@ def c08(ctx):
             f.write(json.dumps(c) + "\n")
     res = run_engine_batch(ctx, ["-inputs", pth], "c08ill") + engine_batches(ctx, "mix", 200, 6000, golden=False)
     engine_projection(ctx, res, {"status"})
+
+# --- C10 -------------------------------------------------------------------
+@signature("dup-import-path")
+def sig_dup_import(sig, what, payload):
+    src = (payload.get("input") or {}).get("src") or ""
+    paths = re.findall(r'^\s*(?:import\s+)?(?:[\w.]+\s+)?"([^"]+)"\s*$', src, re.M)
+    return len(paths) != len(set(paths))
+
+@prop("C10")
+def c10(ctx):
+    ctx.rule = ("exhaustive cross product: patch-side import form {absent, unnamed, named literal (same / other), identifier-metavariable "
+                "name, dot, blank} x file-side form {absent, unnamed, named same, named other, dot, blank} x package clause {none, "
+                "matching, other} x import layout {single, grouped with unrelated imports}, always on a file where the code pattern "
+                "occurs; expectation from the README table; the real engine's decision and result are compared with the table and "
+                "with the Lean model (matchImport/fileMatch). Plus the generated import stream of the engine family. Non-trivial = "
+                "guards hold and the file is rewritten; distinct = distinct (patch, file).")
+    path = "example.com/pkg"
+    pforms = {"absent": None, "unnamed": f'"{path}"', "named-same": f'pkg "{path}"', "named-other": f'other "{path}"',
+              "metavar": f'nm "{path}"', "dot": f'. "{path}"', "blank": f'_ "{path}"'}
+    fforms = {"absent": None, "unnamed": f'"{path}"', "named-same": f'pkg "{path}"', "named-other": f'other "{path}"',
+              "dot": f'. "{path}"', "blank": f'_ "{path}"'}
+    def expect(pf, ff):
+        if pf == "absent":
+            return True
+        if ff == "absent":
+            return False
+        if pf == "unnamed":
+            return ff == "unnamed"
+        if pf == "metavar":
+            return True
+        return {"named-same": "named-same", "named-other": "named-other", "dot": "dot", "blank": "blank"}[pf] == ff
+    cases, exp = [], {}
+    k = 0
+    for pf, pspec in pforms.items():
+        for ff, fspec in fforms.items():
+            for pk in ("none", "match", "other"):
+                for layout in ("single", "grouped"):
+                    for sign in (" ", "-"):
+                        head = ""
+                        if pk == "match":
+                            head += " package a\n"
+                        elif pk == "other":
+                            head += " package zz\n"
+                        if pspec:
+                            head += f"{sign}import {pspec}\n"
+                            if sign == "-":
+                                head += f'+import {pspec.split(" ")[0] + " " if " " in pspec else ""}"example.com/newpkg"\n'
+                            head += "\n"
+                        meta = "var nm identifier\n" if pf == "metavar" else ""
+                        patch = "@@\nvar x expression\n" + meta + "@@\n" + head + "-foo(x)\n+bar(x)\n"
+                        imports = []
+                        if fspec:
+                            imports.append(fspec)
+                        if layout == "grouped":
+                            imports = ['"fmt"'] + imports + ['str "strings"']
+                        if not imports:
+                            imp = ""
+                        elif layout == "single" and len(imports) == 1:
+                            imp = "import " + imports[0] + "\n\n"
+                        else:
+                            imp = "import (\n" + "".join("\t" + i + "\n" for i in imports) + ")\n\n"
+                        src = "package a\n\n" + imp + "func f() {\n\tfoo(1)\n\tpkg.Use(foo(2))\n}\n"
+                        cid = f"x{k}"
+                        k += 1
+                        cases.append({"id": cid, "patches": [patch], "src": src})
+                        exp[cid] = (expect(pf, ff) and pk != "other", f"patch import {pf}, file import {ff}, package clause {pk}, {layout}, sign '{sign}'")
+    d = ctx.scratch("c10")
+    pth = os.path.join(d, "in.jsonl")
+    with open(pth, "w") as f:
+        for c in cases:
+            f.write(json.dumps(c) + "\n")
+    res = run_engine_batch(ctx, ["-inputs", pth], "c10x")
+    ctx.extra["exhaustive"] = True
+    ctx.extra["cross_product"] = len(cases)
+    seen = set()
+    for inp, orig, impl, model, same in res:
+        seen.add(inp["id"])
+        want, desc = exp[inp["id"]]
+        got = any(t.startswith("k") for t in impl["trace"])
+        ctx.count("table:" + ("applies" if want else "guarded"))
+        if got != want:
+            ctx.violation(f"{desc}: the change {'applied' if got else 'did not apply'} but the documented table says it {'applies' if want else 'must not apply'}",
+                          replay_payload(inp, impl, model))
+    missing = [c for c in cases if c["id"] not in seen]
+    if missing:
+        ctx.broken("harness", f"{len(missing)} cases of the cross product were rejected, e.g. {missing[0]['patches'][0]!r}")
+    engine_projection(ctx, res, {"decisions", "where"})
+    # duplicate import paths: the known divergence (F8) and the generated stream
+    dup = {"id": "f8", "patches": ["@@\nvar x expression\n@@\n import bar \"example.com/pkg\"\n\n-foo(x)\n+bar.Foo(x)\n"],
+           "src": "package a\n\nimport (\n\t\"example.com/pkg\"\n\tbar \"example.com/pkg\"\n)\n\nfunc f() { foo(1); pkg.X(); bar.Y() }\n"}
+    with open(pth, "w") as f:
+        f.write(json.dumps(dup) + "\n")
+    for inp, orig, impl, model, same in run_engine_batch(ctx, ["-inputs", pth], "c10f8"):
+        ctx.evaluations += 1
+        if not any(t.startswith("k") for t in impl["trace"]):
+            ctx.violation("a file importing the path both unnamed and as bar does not satisfy the guard import bar \"…\"",
+                          replay_payload(inp, impl, model))
+    engine_family(ctx, "c10", {"decisions", "where"}, n_quick=300, golden=False)
+
+@prop("C11")
+def c11(ctx):
+    engine_family(ctx, "c11", {"imports", "decisions"}, n_quick=500)
+
+# --- C09 -------------------------------------------------------------------
+@signature("paren-in-later-minus")
+def sig_paren_minus(sig, what, payload):
+    chain = (payload.get("input") or {}).get("chain") or []
+    # a later change whose '-' side (context or '-' lines) contains a parenthesised expression that is not a call's
+    # argument list, a conversion or a parameter list: printing the intermediate file may drop or add such parentheses
+    for ch in chain[1:]:
+        body = ch.split("\n@@\n", 1)[-1]
+        for l in body.split("\n"):
+            if l.startswith("+") or not l:
+                continue
+            code = l[1:]
+            if re.search(r"(^|[\s(\[{,=:+\-*/%<>!&|^])\((?!\))", code) and not re.match(r"^\s*(func\b|\}?\s*else|import\b|var \(|const \(|type \()", code.strip()):
+                return True
+    return False
+
+F7_WITNESS = {"id": "f7", "chain": ["@@\nvar x expression\n@@\n-foo(x)\n+x*2\n", "@@\nvar y expression\n@@\n-(y)*2\n+mul(y, 2)\n"],
+              "src": "package a\n\nfunc f() int {\n\treturn foo(a + b)\n}\n"}
+
+def canon_files(ctx, paths):
+    r = subprocess.run([ctx.harness, "canon"], input="\n".join(paths) + "\n", stdout=subprocess.PIPE, stderr=subprocess.PIPE, text=True)
+    return r.stdout.splitlines()
+
+def chain_check(ctx, c, how):
+    """combined run vs chain of single-change runs, through the CLI; returns a problem string or None"""
+    chain = c["chain"]
+    root = ctx.scratch("c09")
+    comb, seq = os.path.join(root, "comb"), os.path.join(root, "seq")
+    for d in (comb, seq):
+        os.makedirs(d)
+        with open(os.path.join(d, "a.go"), "w") as f:
+            f.write(c["src"])
+        for i, ch in enumerate(chain):
+            with open(os.path.join(d, f"c{i}.patch"), "w") as f:
+                f.write(ch)
+    stdin = None
+    if how == "one-file":
+        with open(os.path.join(comb, "all.patch"), "w") as f:
+            f.write("\n".join(chain))
+        args = ["-p", "all.patch"]
+    elif how == "stdin":
+        args, stdin = [], "\n".join(chain).encode()
+    elif how == "list":
+        with open(os.path.join(comb, "list.txt"), "w") as f:
+            f.write("".join(f"c{i}.patch\n" for i in range(len(chain))))
+        args = ["-P", "list.txt"]
+    elif how == "mixed" and len(chain) >= 2:
+        with open(os.path.join(comb, "list.txt"), "w") as f:
+            f.write("".join(f"c{i}.patch\n" for i in range(1, len(chain))))
+        args = ["-p", "c0.patch", "-P", "list.txt"]
+    else:
+        args = [x for i in range(len(chain)) for x in ("-p", f"c{i}.patch")]
+    code, out, err = cl.gopatch(ctx.gopatch, comb, args + ["a.go"], stdin=stdin)
+    seq_fail = None
+    for i in range(len(chain)):
+        sc, so, se = cl.gopatch(ctx.gopatch, seq, ["-p", f"c{i}.patch", "a.go"])
+        if sc != 0:
+            seq_fail = (i, se.decode("utf-8", "replace"))
+            break
+    res = None
+    comb_bytes = open(os.path.join(comb, "a.go")).read()
+    seq_bytes = open(os.path.join(seq, "a.go")).read()
+    if seq_fail is not None:
+        if code == 0:
+            res = f"step {seq_fail[0]} of the chain fails ({seq_fail[1].strip()[:120]}) but the combined run reports success"
+        elif comb_bytes != c["src"]:
+            res = "the combined run failed but did not leave the file untouched"
+    elif code != 0:
+        res = f"every single step succeeds but the combined run fails: {err.decode('utf-8','replace').strip()[:200]}"
+    else:
+        ca, cb = canon_files(ctx, [os.path.join(comb, "a.go"), os.path.join(seq, "a.go")])
+        if ca != cb:
+            res = "the combined run and the chain of single-change runs give different programs"
+    shutil.rmtree(root, ignore_errors=True)
+    return res, comb_bytes, seq_bytes
+
+@prop("C09")
+def c09(ctx):
+    ctx.rule = ("chains of 2..4 changes where change k+1 matches only code produced by change k (optionally with a change that matches "
+                "nothing in between), given as one patch file, several -p flags, a -P list, -p and -P mixed, or stdin; (i) the real "
+                "engine's per-change decisions are compared with the Lean model applyChange folded over the changes; (ii) through the "
+                "CLI the combined run is compared with running gopatch once per change on the file the previous run wrote, as canonical "
+                "trees with redundant parentheses removed; a failing step must make the combined run fail and leave the file untouched. "
+                "Non-trivial = at least two changes matched; distinct = distinct (chain, source).")
+    res = engine_family(ctx, "c09", {"decisions", "status"}, n_quick=300, n_thorough=8000, golden=True)
+    # CLI chain check
+    rng = random.Random(ctx.seed)
+    cases = [c for c in gen_cases(ctx, "c09", 150 if ctx.tier == "quick" else 3000, ctx.seed + 7, golden=False) if c.get("chain")]
+    budget = 60 if ctx.tier == "quick" else 1500
+    hows = ["flags", "one-file", "list", "stdin", "mixed"]
+    todo = [(c, hows[i % len(hows)]) for i, c in enumerate(cases[:budget])]
+    todo.append((dict(F7_WITNESS), "flags"))
+    # a chain with a failing step
+    todo.append(({"id": "failstep", "chain": ["@@\nvar x expression\n@@\n-foo(x)\n+bar(x)\n", "@@\nvar x expression\n@@\n-bar(x)\n+baz.x\n"],
+                  "src": "package a\n\nfunc f() {\n\tfoo(g(1))\n}\n"}, "flags"))
+    with ThreadPoolExecutor(max_workers=8) as ex:
+        outs = list(ex.map(lambda t: chain_check(ctx, t[0], t[1]), todo))
+    for (c, how), (problem, cb, sb) in zip(todo, outs):
+        ctx.evaluations += 1
+        ctx.count("load:" + how)
+        ctx.nontrivial.add(json.dumps(c["chain"]) + c["src"])
+        if problem:
+            ctx.violation(problem, {"input": {"chain": c["chain"], "src": c["src"], "given_as": how},
+                                    "combined": cb[-800:], "chained": sb[-800:],
+                                    "reproduce": "gopatch -p c0.patch -p c1.patch ... a.go   versus   gopatch -p c0.patch a.go; gopatch -p c1.patch a.go; ..."})
